@@ -214,6 +214,20 @@ def window_unaltered(ctx: Ctx, py: PyProgram, rule: str = "C01.4/window", hooks:
                                         for y in ast.walk(helper)):
                                     ctx.violation(rule, key_of(isa.ARCH_PY, f"{q.split('.')[0]}.{helper.name}", "decode() is not given the helper's own parameter"),
                                                   f"{helper.name} decodes `{unparse(a)}`, not the bytes/address it was called with", f"{isa.ARCH_PY}:{x.lineno}")
+        # every answer other than "not an instruction" comes after the decoder has seen the window (must-pass-through): a return
+        # that bypasses decode() (a length table, a first-byte shortcut) accepts what the other consumers reject
+        try:
+            from .. import cfg as _cfg
+            g = _cfg.build_py(fn, q)
+            cnodes = [g.node_of(c) for c in calls]
+            for r in [r for r in ast.walk(fn) if isinstance(r, ast.Return) and r.value is not None and not (isinstance(r.value, ast.Constant) and r.value.value is None)]:
+                rn = g.node_of(r)
+                n += 1
+                if rn is None or not any(cn is not None and g.dominates(cn, rn) for cn in cnodes):
+                    ctx.violation(rule.split("/")[0] + "/decode-first", key_of(isa.ARCH_PY, q, "an answer is returned without decoding the window"),
+                                  f"{q} returns `{unparse(r.value)[:60]}` on a path that never called decode(): this hook accepts byte strings (with a length) that the decoder, and so the other consumers, may reject", f"{isa.ARCH_PY}:{r.lineno}")
+        except AnalysisError:
+            raise
         for c in calls:
             for a in c.args[:2]:
                 n += 1
